@@ -1,7 +1,7 @@
 (* One entry point for the OCaml runner: op name and byte-string arguments
    in, (result bytes, tag text) out.  All structure is decoded here, in Coq. *)
 From Coq Require Import NArith ZArith List Bool String.
-From GJ Require Import Base.Bytes Base.Show Model.Int Model.StrEnc Model.StrDec Model.Compact Model.Iface Model.Path Model.KeyBitmap Spec.Json Gen.Resets Model.Mem Base.TypeAddrBase Gen.TypeAddr Model.TypeCache Model.Stream Model.StreamInst Model.Enc Model.EncIndent Gen.Query Model.Query Model.Decode Model.EncTyped Model.Skip Model.PathEval Model.PathTags.
+From GJ Require Import Base.Bytes Base.Show Model.Int Model.StrEnc Model.StrDec Model.Compact Model.Iface Model.Path Model.KeyBitmap Spec.Json Gen.Resets Model.Mem Base.TypeAddrBase Gen.TypeAddr Model.TypeCache Model.Stream Model.StreamInst Model.Enc Model.EncIndent Gen.Query Model.Query Model.Decode Model.EncTyped Model.Skip Model.PathEval Model.PathTags Gen.SliceShape Model.SlicePool.
 Import ListNotations.
 Open Scope N_scope.
 Open Scope string_scope.
@@ -111,6 +111,23 @@ Definition dispatch (op : list N) (args : list (list N)) : list N * list N :=
      if forallb (fun d => match d with Some (_, []) => true | _ => false end) docs
      then extract_history (arg 0 args) (flat_map (fun d => match d with Some (v, _) => [v] | None => [] end) docs)
      else str "unparsed", [])
+  else if list_eqb op (str "c11.slice") then
+    (* one slice decoder ([]int), a sequence of documents into fresh destinations.  Each argument: the elements
+       separated by commas (n = null), then "]" when the array is closed, "!" when the text breaks off after the
+       last element listed.  Result per call: the elements stored, or E *)
+    (let parse_doc (a : list N) : list int_or_null * bool :=
+       let closed := N.eqb (last a 0) 93 in
+       let body := removelast a in
+       (match body with
+        | [] => []
+        | _ => map (fun f => if list_eqb f [110] then None else Some (N.to_nat (dec_N f))) (split_on 44 body)
+        end, closed) in
+     let show_call (r : option (list nat)) : list N :=
+       match r with
+       | None => [69]
+       | Some l => List.concat (map (fun x => show_N (N.of_nat x) ++ [44]) l)
+       end in
+     List.concat (map (fun r => show_call r ++ [59]) (calls slice_clears {| contents := fun _ => 0%nat; capacity := 2 |} (map parse_doc args))), [])
   else if list_eqb op (str "c15.bitmap") then
     (* arg0 = sorted lower-cased names separated by LF, arg1 = decoded key *)
     (let names := split_on 10 (arg 0 args) in
